@@ -30,8 +30,10 @@ CHECKS: dict[str, dict[str, str]] = {
              'fail. The real operator then runs random object histories with stream faults at random positions, and namespace/CRD churn under '
              'a namespace pattern; TLC evaluates on each execution: every watch request resumes from exactly the last listed/streamed '
              'version, never watches without listing, at rest the consumer saw the final state of every object, and exactly one watch per '
-             'served (resource, namespace) pair. The known family F15 (unknown ERROR kills the watcher silently) is a monitor verdict.',
-        note='resource versions are integers of the fake server (histories start just below 10 / 100 / 1000 so that the decimal width of the version grows within a stream); pausing by peering is covered by C13 (not built yet)',
+             'served (resource, namespace) pair. The known families F15 (unknown ERROR kills the watcher silently), F25 and F32 (a list/watch '
+             'request that gives up with a 5xx/403 kills it likewise) are monitor verdicts. Watches are also cut by server / client / inactivity '
+             'timeouts, and list/watch requests answered 429 / 503 / transport errors several times in a row.',
+        note='resource versions are integers of the fake server (histories start just below 10 / 100 / 1000 so that the decimal width of the version grows within a stream); pausing by peering is covered by C13; the timing of reconnects is not judged',
         ref='DESIGN.md 4/C19'),
     'C13': dict(
         technique='explicit TLA+ model of peering (Peering.tla: keep-alive, evaluation of queued snapshots, clean, deadline sleep, graceful '
